@@ -29,7 +29,7 @@ import (
 var idRe = regexp.MustCompile(`^_[0-9a-f]{8}-[0-9a-f]{4}-4[0-9a-f]{3}-[89ab][0-9a-f]{3}-[0-9a-f]{12}$`)
 var idAttrRe = regexp.MustCompile(`\bID="([^"]*)"`)
 
-var c18Modes = []string{"scheduled-builders", "sequential-history", "masked-bytes-enumeration", "short-reads", "real-entropy"}
+var c18Modes = []string{"scheduled-builders", "sequential-history", "masked-bytes-enumeration", "short-reads", "real-entropy", "stalled-entropy"}
 var c18Builders = []string{"BuildAuthRequest", "BuildAuthRequestDocumentNoSig", "BuildLogoutRequestDocument", "BuildLogoutRequestDocumentNoSig", "BuildLogoutResponseDocument", "BuildLogoutResponseDocumentNoSig", "BuildAuthBodyPost", "BuildAuthURL", "uuid.NewV4"}
 
 func init() {
@@ -41,7 +41,7 @@ func init() {
 			"oracle: ID is a legal xs:ID in canonical v4 form, equals the rendering of a contiguous 16-byte window of the bytes served with only version/variant bits forced, windows of different IDs do not overlap, nothing is drawn from elsewhere; distinct = shape hash (mode, builders, interleaving signature)",
 		Directed:   c18Directed,
 		Run:        c18Run,
-		MustHit:    []string{"mode=scheduled-builders", "mode=sequential-history", "mode=masked-bytes-enumeration", "mode=short-reads", "mode=real-entropy", "preemption", "kind=AuthnRequest", "kind=LogoutRequest", "kind=LogoutResponse", "two_instances", "enumerated_block_rendered", "documents_kept_then_serialised"},
+		MustHit:    []string{"mode=scheduled-builders", "mode=sequential-history", "mode=masked-bytes-enumeration", "mode=short-reads", "mode=real-entropy", "preemption", "kind=AuthnRequest", "kind=LogoutRequest", "kind=LogoutResponse", "two_instances", "enumerated_block_rendered", "documents_kept_then_serialised", "mode=stalled-entropy", "sp_copied_by_value_after_use"},
 		RandomRuns: map[string]int{"quick": 400, "thorough": 10000},
 		Assumptions: []string{"unpredictability is shown as provenance only: every free bit comes unchanged from crypto/rand.Reader; the quality of the OS generator is assumed",
 			"entropy errors are not injected (since Go 1.24 a failing crypto/rand.Reader is fatal by design); only short reads are a legal fault on that seam",
@@ -58,6 +58,15 @@ func c18Directed(tier string) [][]uint64 {
 	}
 	for i := uint64(0); i < 6; i++ {
 		out = append(out, []uint64{1, i, i})
+	}
+	out = append(out, []uint64{1, 1, 3}, []uint64{1, 4, 5}) // with the SPs copied by value half-way
+	// the entropy source stalls for a few (real) seconds
+	nStall := uint64(1)
+	if tier != "quick" {
+		nStall = 6
+	}
+	for i := uint64(0); i < nStall; i++ {
+		out = append(out, []uint64{5, i, 4242})
 	}
 	// the 65,536 masked-byte values in 16 (quick: 4 sampled) slices
 	n := uint64(16)
@@ -275,6 +284,9 @@ func c18Run(r *core.Run) {
 	mode := c18Modes[t.Int(len(c18Modes), "c18.mode")]
 	p1 := t.Int(1<<16, "c18.p1")
 	p2 := t.Int(1<<16, "c18.p2")
+	if mode == "stalled-entropy" && p2 != 4242 {
+		mode = "sequential-history" // the stall costs real seconds: directed cases only
+	}
 	r.Probe("mode=" + mode)
 	o := DrawOut(r, 1, true)
 	if world.Key(o.WantSignKey).EC != nil {
@@ -406,6 +418,20 @@ func c18Run(r *core.Run) {
 		for i := 0; i < n; i++ {
 			b := c18Builders[(p2+i*7+i/5)%len(c18Builders)]
 			kindProbe(b)
+			if i == n/3 && p1%3 == 1 {
+				// the application copies its (already used) service providers by value and goes on with the
+				// originals and the copies
+				c0, c1 := *sps[0], *sps[1]
+				sps = []*saml2.SAMLServiceProvider{sps[0], &c0, sps[1], &c1}
+				r.Probe("sp_copied_by_value_after_use")
+				r.Fault("sp_copied_by_value_after_use")
+			}
+			if len(sps) == 4 {
+				if id, err := c18Build(sps[i%4], b); err == nil {
+					all = append(all, builtID{0, b + "(copy-mix)", id})
+					continue
+				}
+			}
 			if strings.HasSuffix(b, "DocumentNoSig") && i%2 == 0 {
 				// the document is kept while later messages are built and serialised only at the end
 				var d *etree.Document
@@ -449,6 +475,33 @@ func c18Run(r *core.Run) {
 		r.Steps += n
 		r.Shape(fmt.Sprintf("seq.%d.%d", n, p2%len(c18Builders)))
 		r.Sample = obs("mode", mode, "constructions", n, "first_ids", fmt.Sprint(all[0].id, " ", all[1].id))
+		c18Check(r, all, ent, 1, ctx)
+
+	case "stalled-entropy":
+		// the entropy source answers, but late (early boot, a stalled hardware token): the library has to
+		// wait for it; identifiers still come from what the source eventually serves and from nothing else
+		stall := time.Duration(2500+500*(p1%4)) * time.Millisecond
+		ent := NewTaskEntropy(t, 1, false)
+		ent.stallAt, ent.stallFor = 1+p1%3, stall
+		ent.Install()
+		defer ent.Uninstall()
+		r.Fault("entropy_source_stalls")
+		var all []builtID
+		for i := 0; i < 4; i++ {
+			b := c18Builders[(p1+i*2)%len(c18Builders)]
+			kindProbe(b)
+			id, err := c18Build(sps[i%2], b)
+			if err != nil {
+				ctx["err"] = err.Error()
+				r.Fail("produce", "C18/build-failed", ctx)
+				return
+			}
+			all = append(all, builtID{0, b, id})
+		}
+		r.Steps += 4
+		r.Shape(fmt.Sprintf("stall.%d.%d", p1%3, p1%4))
+		r.Sample = obs("mode", mode, "stall", stall.String(), "read", 1+p1%3)
+		ctx["stall"] = stall.String()
 		c18Check(r, all, ent, 1, ctx)
 
 	case "masked-bytes-enumeration":
